@@ -21,7 +21,7 @@ MANIFEST = {
 }
 
 BOUNDS = {"quick": {"vertices": 3, "links": 2}, "thorough": {"vertices": 3, "links": 2}}
-TIME_BUDGET = {"quick": 400, "thorough": 2400}
+TIME_BUDGET = {"quick": 400, "thorough": 1200}
 STUBS = ["types.MappingProxyType -> read-only view of the given dict (aliasing preserved)"]
 ASSUMPTIONS = ["one mutation per handed-out container", "pool bound as stated"]
 EXPLANATION = "aliasing + behavioural snapshot checks for every accessor and constructor over a symbolic state"
